@@ -38,6 +38,10 @@ pub const MENU: &[(&str, bool)] = &[
     ("(if)", true),
 ];
 
+/// texts that cannot be read as a datum; only ever the LAST thing in a file (what matters is how
+/// the end of the file is reached)
+pub const BROKEN_TAILS: &[&str] = &[",", "\"abc", "(car '(1)", "'", ")", "#(1", "(1 . )", "#", "(", ",@"];
+
 const HEADER: &str = "(import (scheme base) (scheme write))";
 
 /// what precedes each form (after the previous one): layout must not matter
@@ -49,6 +53,8 @@ pub struct Case {
     pub crlf: bool,
     pub final_newline: bool,
     pub elsewhere: bool,
+    /// index into BROKEN_TAILS appended after the forms
+    pub broken: Option<usize>,
 }
 
 pub struct Rendered {
@@ -78,6 +84,18 @@ pub fn render(c: &Case) -> Rendered {
         norm.push_str(src);
         extents.push((start, pos_of(&norm)));
     }
+    if let Some(b) = c.broken {
+        let gap = GAPS[(c.gap + c.forms.len()) % GAPS.len()];
+        text.push_str(&gap.replace('\n', nl));
+        norm.push_str(gap);
+        let start = pos_of(&norm);
+        text.push_str(BROKEN_TAILS[b]);
+        norm.push_str(BROKEN_TAILS[b]);
+        // a syntax error at the end of the input may be reported where the input ends: the
+        // reader terminates every line, so that is column 1 of the line after the last one
+        let end = pos_of(&norm);
+        extents.push((start, (end.0 + 1, 1)));
+    }
     if c.final_newline {
         text.push_str(nl);
     }
@@ -98,6 +116,9 @@ pub fn expected(c: &Case) -> Expected {
                 return Expected { stdout: m.out.clone(), failing: Some(k), err: Some(e) };
             }
         }
+    }
+    if c.broken.is_some() {
+        return Expected { stdout: m.out.clone(), failing: Some(c.forms.len()), err: Some(ErrKind::Syntax(String::new())) };
     }
     Expected { stdout: m.out.clone(), failing: None, err: None }
 }
@@ -183,7 +204,10 @@ pub fn judge(c: &Case, worker: usize) -> Result<u64, (String, String)> {
             if got.code == Some(0) || got.code.is_none() {
                 problems.push(format!("exit status {:?} (expected non-zero)", got.code));
             }
+            let unlocated_ok = k == c.forms.len() && c.broken.is_some() && got.stderr.lines().count() == 1 && got.stderr.starts_with(&format!("{} ", arg)) && got.stderr.trim().len() > arg.len() + 1;
             match parse_diag(&got.stderr, &arg) {
+                // a syntax error met at the very end of the input may carry no position
+                Err(_) if unlocated_ok => {}
                 Err(w) => problems.push(format!("diagnostic {:?}: {}", got.stderr, w)),
                 Ok((line, col)) => {
                     // inside the text of the failing form (the implementation reports the position
@@ -206,11 +230,17 @@ pub fn judge(c: &Case, worker: usize) -> Result<u64, (String, String)> {
         (None, Ok(Ok(_))) => {}
         (Some(k), Ok(Err(err))) => {
             let kind = crate::drive::classify(&err);
-            if &kind != k {
+            let same = match (&kind, k) {
+                (ErrKind::Syntax(_), ErrKind::Syntax(_)) if c.broken.is_some() => true,
+                (a, b) => a == b,
+            };
+            if !same {
                 problems.push(format!("in-process error kind {:?} (expected {:?})", kind, k));
             }
             let msg = format!("{}", err);
-            if !got.stderr.contains(&msg) {
+            // (at the very end of the input the two differ legitimately: the file reader terminates
+            // the last line, so "#" + end of input is "#" + newline there)
+            if !got.stderr.contains(&msg) && c.broken.is_none() {
                 problems.push(format!("diagnostic {:?} does not contain the library interface's message {:?}", got.stderr, msg));
             }
         }
@@ -248,7 +278,14 @@ pub fn cases(max_forms: usize) -> Vec<Case> {
                 if len == max_forms && len >= 3 && variant != i % 8 && variant != (i + 3) % 8 {
                     continue;
                 }
-                out.push(Case { gap: (i + variant) % GAPS.len(), forms: forms.clone(), crlf: variant & 1 != 0, final_newline: variant & 2 != 0, elsewhere: variant & 4 != 0 });
+                out.push(Case { gap: (i + variant) % GAPS.len(), forms: forms.clone(), crlf: variant & 1 != 0, final_newline: variant & 2 != 0, elsewhere: variant & 4 != 0, broken: None });
+                // the same program ending in text that cannot be read (all variants for programs
+                // of <= 1 form, a rotating variant for 2 forms)
+                if forms.iter().all(|f| !MENU[*f].1) && (len <= 1 || (len == 2 && variant == i % 8)) {
+                    for b in 0..BROKEN_TAILS.len() {
+                        out.push(Case { gap: (i + variant) % GAPS.len(), forms: forms.clone(), crlf: variant & 1 != 0, final_newline: variant & 2 != 0, elsewhere: variant & 4 != 0, broken: Some(b) });
+                    }
+                }
             }
         }
     }
@@ -256,7 +293,7 @@ pub fn cases(max_forms: usize) -> Vec<Case> {
 }
 
 pub fn describe(c: &Case) -> String {
-    format!("[{} {} {}]\n{}", if c.crlf { "CRLF" } else { "LF" }, if c.final_newline { "final-newline" } else { "no-final-newline" }, if c.elsewhere { "cwd-elsewhere" } else { "cwd=program-dir" }, render(c).text)
+    format!("[{} {} {}{}]\n{}", if c.crlf { "CRLF" } else { "LF" }, if c.final_newline { "final-newline" } else { "no-final-newline" }, if c.elsewhere { "cwd-elsewhere" } else { "cwd=program-dir" }, if c.broken.is_some() { " unreadable-tail" } else { "" }, render(c).text)
 }
 
 fn special_cases(acc: &mut Acc) {
@@ -316,7 +353,7 @@ pub fn run(ctx: &Ctx) -> i32 {
                         acc.sample(i, json!({"program": describe(c)}));
                     }
                 }
-                Err((e, o)) => acc.mismatch(Mismatch { idx: i, case: describe(c), expected: format!(": {}", e), observed: o, payload: json!({"gap": c.gap, "forms": c.forms, "crlf": c.crlf, "final_newline": c.final_newline, "elsewhere": c.elsewhere}) }, None),
+                Err((e, o)) => acc.mismatch(Mismatch { idx: i, case: describe(c), expected: format!(": {}", e), observed: o, payload: json!({"gap": c.gap, "forms": c.forms, "crlf": c.crlf, "final_newline": c.final_newline, "elsewhere": c.elsewhere, "broken": c.broken}) }, None),
             }
         },
     );
@@ -332,7 +369,7 @@ pub fn run(ctx: &Ctx) -> i32 {
             tier: ctx.tier_name(),
             seed: ctx.seed,
             exhaustive: true,
-            rule: format!("every program file = import line + every sequence of <= {} forms from a menu of {} (displays of an integer / symbol / improper list / string, newline, definition, silent expression, a procedure that displays called twice, a multi-line form, 9 failing forms) x LF/CRLF x final newline or none x working directory = program directory or elsewhere x 5 rotating inter-form layouts (newline, blank lines, indentation, trailing comment + tab, full-line comment) (the longest programs get a rotating pair of the 8 variants), run through the built binary; plus missing file, directory as file, non-UTF-8 file; distinct = distinct (stdout, status) observations", max_forms, MENU.len()),
+            rule: format!("every program file = import line + every sequence of <= {} forms from a menu of {} (displays of an integer / symbol / improper list / string, newline, definition, silent expression, a procedure that displays called twice, a multi-line form, 9 failing forms) x LF/CRLF x final newline or none x working directory = program directory or elsewhere x 5 rotating inter-form layouts (newline, blank lines, indentation, trailing comment + tab, full-line comment) (the longest programs get a rotating pair of the 8 variants), run through the built binary; every program without a failing form of <= 2 forms additionally ending in each of {} texts that cannot be read (stray unquote, unterminated string / list / vector, dangling quote, stray parenthesis, lone #, ...); plus missing file, directory as file, non-UTF-8 file; distinct = distinct (stdout, status) observations", max_forms, MENU.len(), BROKEN_TAILS.len()),
             bounds: json!({"programs": total, "max_forms": max_forms}),
             assumptions: vec!["refsem's printer for integers, symbols, strings and lists (where the output format is not in question)".into()],
             wall_s: ctx.elapsed(),
@@ -353,6 +390,7 @@ pub fn replay(p: &serde_json::Value) -> bool {
         crlf: p["crlf"].as_bool().unwrap_or(false),
         final_newline: p["final_newline"].as_bool().unwrap_or(true),
         elsewhere: p["elsewhere"].as_bool().unwrap_or(false),
+        broken: p["broken"].as_u64().map(|b| b as usize),
     };
     let r = judge(&c, 9998);
     let _ = std::fs::remove_dir_all(scratch(9998));
